@@ -41,6 +41,12 @@ def main():
                 out.broken.append(p)
         for p in core.lint_development():
             out.broken.append('lint: ' + p)
+        if a.tier == 'thorough' and not ob['problems']:
+            # the independent checker re-checks the compiled property file and everything it depends on, and lists the axioms
+            ck = core.coqchk(prop)
+            out.extra['coqchk'] = ck
+            if not ck['ok']:
+                out.broken.append('coqchk: ' + ck['summary'][-600:])
         mod.run(out)
         return core.finish(out)
     except core.InfraError as e:
